@@ -90,6 +90,29 @@ def session (sort : Bool) (msg : Bytes) (tw : Option TweakOpt) (signers : List (
             | some _ => combineWith ak r ss msg
           s!"agg={showPoint ak.final} nonce={listToHex aggN} s={joinC (ps.map (fun (s, _) => hex32 s))} pv={joinC pv} xv={joinC xv} yv={joinC yv} sig={listToHex (serializeSchnorrSig rx s)} v={b01 (schnorrVerify rx s msg (serializeXOnly ak.final))}"
 
+/-- final signature of one session (no extra partial verifications) -/
+def sessionSig (sort : Bool) (msg : Bytes) (tw : Option TweakOpt) (signers : List (Nat × Bytes)) : String :=
+  let keys := signers.map (fun (d, _) => mulG d)
+  match aggregateKeys keys sort (twOf tw) with
+  | none => "err"
+  | some ak =>
+    let pubs := keys.map serializeCompressed
+    match (signers.zip pubs).mapM (fun ((_, r), pk) => genNonces r pk [] [] none []) with
+    | none => "err"
+    | some (nonces : List (Bytes × Bytes)) =>
+      match aggregateNonces (nonces.map (·.2)) with
+      | none => "err"
+      | some aggN =>
+        match ((signers.zip nonces).map (fun ((d, _), (sec, _)) => signWith ak sec d aggN keys msg sort true)).mapM id with
+        | none => "err"
+        | some (ps : List (Nat × Point)) =>
+          let ss : List Nat := ps.map (fun (s, _) => s)
+          let r := match ps with | (_, r) :: _ => r | [] => .inf
+          let (rx, s) : Nat × Nat := match tw with
+            | none => (match r with | .inf => 0 | .aff x _ => x, ss.foldl sadd 0)
+            | some _ => combineWith ak r ss msg
+          listToHex (serializeSchnorrSig rx s)
+
 def handleMusig : List String → String
   | ["keyagg", sort, keys, tw] => match parseKeys? keys, parseTweakOpt? tw with
     | some keys, some tw => match aggregateKeys keys (sort == "1") (twOf tw) with
@@ -135,6 +158,27 @@ def handleMusig : List String → String
       else if signers.length == 1 then agg ++ " single"
       else agg ++ " " ++ (out.filter (·.startsWith "sig=")).headD "sig=?"
     | _, _, _ => "bad-op"
+  | ["optreuse", sort, tw, keysets, msg, signers] =>
+    match parseTweakOpt? tw, (keysets.splitOn "|").mapM parseKeys?, hexToList? msg, (signers.splitOn ",").mapM parseSigner? with
+    | some tw, some sets, some msg, some signers =>
+      let srt := sort == "1"
+      let agg1 (ks : List Point) : String := match aggregateKeys ks srt (twOf tw) with
+        | some ak => showPoint ak.final
+        | none => "err"
+      let setAt (i : Nat) : List Point := sets.getD (i % sets.length) []
+      let seq := [0, 0, 1, 2, 0].map (fun i => agg1 (setAt i))
+      let cc := (List.range 6).map (fun j => agg1 (setAt j))
+      let msg2 := match msg with | b :: t => (b ^^^ 1) :: t | [] => []
+      let sa := sessionSig srt msg tw signers
+      let sb := sessionSig srt msg2 tw signers
+      let single := signers.length == 1
+      let bsig (m : Bytes) : String := match signers with
+        | (d, aux) :: _ => match schnorrSign d m (some aux) with
+          | some (r, s) => listToHex (serializeSchnorrSig r s)
+          | none => "err"
+        | [] => "err"
+      s!"ka={joinC seq} cc={joinC cc} sa={sa} sa2={sa} sb={sb} ca={if single then "single" else sa} cb={if single then "single" else sb} bs={joinC [bsig msg, bsig msg2, bsig msg]} in=1"
+    | _, _, _, _ => "bad-op"
   | ["ctx2", _, msg, tw, signers] =>
     match hexToList? msg, parseTweakOpt? tw, (signers.splitOn ",").mapM parseSigner? with
     | some msg, some tw, some signers =>
